@@ -197,6 +197,29 @@ pub fn run(ctx: &Ctx, rep: &mut Report) {
         for tx in 0..=255u8 {
             b.cks = Some(tx);
             b.hexstyle = ((tx as u64 + bi) % 5) as u8;
+            if (tx as u64 + bi) % 11 == 0 {
+                // over-long checksum fields: only the first eight digits are read, so the
+                // value is whatever those say, not the low digits
+                let long = match (tx / 11) % 4 {
+                    0 => format!("1{:08X}", tx),
+                    1 => format!("{:09X}", tx),
+                    2 => format!("{:02X}0000000", tx),
+                    _ => format!("F00000000{:02X}", tx),
+                };
+                let body = b.body();
+                let mut l = Vec::new();
+                if let Some(t) = &b.tag {
+                    l.push(b'\\');
+                    l.extend_from_slice(t);
+                    l.push(b'\\');
+                }
+                l.push(b.delim);
+                l.extend_from_slice(&body);
+                l.push(b'*');
+                l.extend_from_slice(long.as_bytes());
+                let mut p2 = Parser::new();
+                judge_line(rep, &mut p2, &[], &l, false, shape, "fresh", "long-checksum");
+            }
             let mut p = Parser::new();
             let mut log = Vec::new();
             let state = if shape == "continuation" {
